@@ -297,10 +297,10 @@ def run(prog, check):
     if rhs_var is None:
         raise AnalysisError('cannot identify the RHS variable stored into Endogenous')
     for n in ast.walk(loop):
-        if isinstance(n, ast.Assign) and isinstance(n.targets[0], ast.Name) and n.targets[0].id == rhs_var and \
-                isinstance(n.value, ast.Call) and call_name(n.value) == 'replace' and len(n.value.args) == 2 and \
-                all(isinstance(a, ast.Constant) for a in n.value.args):
-            table.append((n.value.args[0].value, n.value.args[1].value))
+        if isinstance(n, ast.Assign) and isinstance(n.targets[0], ast.Name) and n.targets[0].id == rhs_var:
+            chain = replace_chain(n.value, rhs_var)
+            if chain:
+                table.extend(chain)
         if isinstance(n, ast.Call) and call_name(n) == 'find' and isinstance(n.func.value, ast.Name) and \
                 n.func.value.id == rhs_var and n.args and isinstance(n.args[0], ast.Constant):
             finds.append(n.args[0].value)
@@ -351,6 +351,8 @@ def run(prog, check):
             if isinstance(e, ast.Name) and e.id in sub:
                 e = sub[e.id]
             ok = isinstance(e, ast.Subscript) and isinstance(e.slice, ast.Constant) and e.slice.value == 1
+            if not ok and isinstance(subject, ast.Name):
+                ok = only_from_component(fn.node, subject.id, 1)
             n6 += 1
             check.saw(fn)
             check.ob('C14.R6', '%s::marker-tested-on-rhs-only(%s)' % (fn.key, unparse(subject)), ok, '%s:%d' % (fn.module.rel, n.lineno),
@@ -374,12 +376,14 @@ def run(prog, check):
             why = 'unexpected transformation of the right-hand side: ' + unparse(v)
             if isinstance(v, ast.Call) and call_name(v) == 'strip' and not v.args and isinstance(v.func.value, ast.Subscript):
                 ok, why = True, 'split part, stripped'
-            elif isinstance(v, ast.Call) and call_name(v) == 'replace' and isinstance(v.func.value, ast.Name) and \
-                    v.func.value.id == rhs_var and len(v.args) == 2 and all(isinstance(a, ast.Constant) for a in v.args):
-                a, b = v.args[0].value, v.args[1].value
-                lagish = b == marker and ('1' in a and '(' in a and ')' in a and ('k' in a or 't' in a))
-                ok = lagish
-                why = 'lag-spelling normalisation %r -> %r' % (a, b) if ok else 'rewrites %r -> %r in every right-hand side' % (a, b)
+            elif replace_chain(v, rhs_var):
+                ok = True
+                whys = []
+                for a, b in replace_chain(v, rhs_var):
+                    lagish = b == marker and ('1' in a and '(' in a and ')' in a and ('k' in a or 't' in a))
+                    ok = ok and lagish
+                    whys.append('lag-spelling normalisation %r -> %r' % (a, b) if lagish else 'rewrites %r -> %r in every right-hand side' % (a, b))
+                why = '; '.join(whys)
             elif isinstance(v, ast.Call) and call_name(v) == 'strip' and isinstance(v.func.value, ast.Name) and v.func.value.id == rhs_var:
                 ok, why = True, 'stripped'
             check.ob('C14.R5', '%s::rhs-transform(%s)' % (f.key, unparse(v)), ok, '%s:%d' % (f.module.rel, n.lineno), why,
@@ -402,6 +406,36 @@ def run(prog, check):
     check.floor('C14.R4', 2)
     check.floor('C14.R6', 4)
     check.floor('C14.R5', 3)
+
+
+def replace_chain(v, var):
+    """[(old, new), ...] when v is  var.replace(a, b).replace(c, d)...  with literal arguments (innermost first)"""
+    out = []
+    while isinstance(v, ast.Call) and call_name(v) == 'replace' and isinstance(v.func, ast.Attribute) and len(v.args) == 2 and \
+            all(isinstance(a, ast.Constant) and isinstance(a.value, str) for a in v.args):
+        out.append((v.args[0].value, v.args[1].value))
+        v = v.func.value
+    if out and isinstance(v, ast.Name) and v.id == var:
+        return list(reversed(out))
+    return []
+
+
+def only_from_component(fn_node, name, index, depth=0):
+    """every definition of the local `name` is `<row>[index]` or computed from `name` itself alone"""
+    defs = [n.value for n in ast.walk(fn_node) if isinstance(n, ast.Assign) and len(n.targets) == 1 and
+            isinstance(n.targets[0], ast.Name) and n.targets[0].id == name]
+    others = [n for n in ast.walk(fn_node) if isinstance(n, (ast.For, ast.comprehension, ast.AugAssign)) and
+              name in target_names(n.target)]
+    if not defs or others:
+        return False
+    for d in defs:
+        if isinstance(d, ast.Subscript) and isinstance(d.slice, ast.Constant) and d.slice.value == index:
+            continue
+        roots = {x.id for x in ast.walk(d) if isinstance(x, ast.Name)}
+        if roots == {name}:
+            continue
+        return False
+    return True
 
 
 def untok(s):
